@@ -6,11 +6,12 @@ def as_bytes(data):
     """ What decode reads: bytes; a bytearray, memoryview or array is read as the bytes it holds. """
     if isinstance(data, bytes):
         return data
+    if isinstance(data, type(u"")) and not data:
+        return b""
     try:
         return memoryview(data).tobytes()
-    except TypeError:
-        if not data and isinstance(data, type(u"")):
-            return b""
+    except (TypeError, ValueError, BufferError):
+        """ no buffer at all, or one that refuses the export (a closed mmap, a released memoryview) """
         raise ProphyError("decode needs bytes, not {}".format(type(data).__name__))
 
 
